@@ -7,9 +7,10 @@ from harness.oracle import dist_sq, surf_lt
 
 GRIDS = {
     "none": None,
-    "p1": dict(bounds=[(F(-1, 3), F(14, 3))], shape=[5], periodic=[True]),
-    "pn": dict(bounds=[(F(-1, 3), F(11, 3)), (F(2, 7), F(2, 7) + F(5, 2))], shape=[4, 2], periodic=[True, False]),
-    "pp": dict(bounds=[(F(0), F(4)), (F(1, 2), F(3))], shape=[4, 2], periodic=[True, True]),
+    # cell sizes differ from 1 along the periodic axes, so that a cell count taken for a length shows
+    "p1": dict(bounds=[(F(-1, 3), F(14, 3))], shape=[10], periodic=[True]),
+    "pn": dict(bounds=[(F(-1, 3), F(11, 3)), (F(2, 7), F(2, 7) + F(5, 2))], shape=[10, 2], periodic=[True, False]),
+    "pp": dict(bounds=[(F(0), F(4)), (F(1, 2), F(3))], shape=[10, 4], periodic=[True, True]),
     "nn": dict(bounds=[(F(0), F(4)), (F(1, 2), F(3))], shape=[4, 2], periodic=[False, False]),
 }
 
